@@ -29,7 +29,8 @@ RULE = ("histories of lifecycle calls (setup / iterate / iterate_n(k) / run(0|1 
         "finalize) starting with setup: one engine object respecting the documented lifecycle (quick: sampled, length <= 6; thorough: "
         "also random up to length 40), two objects with non-overlapping live intervals, two objects with overlapping ones, calls on "
         "a released engine, iterate_n(k<=0) after completion, one RDScript object (quantity unit mol / µmol) set up on two engine objects "
-        "and again on the first, simulate_script on a run of ~2 s, run(ms) slices timed on a simulation with 10^9 steps left, "
+        "and again on the first, another engine object (never set up / finalized / temporary) garbage-collected while one is mid-run, "
+        "simulate_script on a run of ~2 s, run(ms) slices timed on a simulation with 10^9 steps left, "
         "iterate_n(k) with k around and at multiples of 1024; scripts: 3 engines x grid/graph x 4 policies incl. species totals "
         "below one molecule; non-trivial when the history has >= 3 calls; distinct by (scripts, calls)")
 ASSUMPTIONS = [
@@ -43,6 +44,7 @@ KEY_SHARED = "two-engines-share-native"
 KEY_UAF = "use-after-finalize"
 KEY_ITN0 = "iterate_n-nonpositive-resets-completion"
 KEY_SLICE = "run-slice-overrun"
+KEY_GC = "gc-of-another-engine-object-disturbs-the-run"
 SLICE_MARGIN = 1.0      # seconds beyond the requested slice (one iteration of these systems takes microseconds)
 
 
@@ -151,9 +153,9 @@ def rand_call(rng, obj, live, pool_opt, scripts, allow_zero_n=False):
 
 
 def gen_history(rng, hid, cls, pool_by_opt, length):
-    """cls: one | blocks | overlap | uaf | itn0 | shared"""
+    """cls: one | blocks | overlap | uaf | itn0 | shared | gc"""
     opts = [o for o in lc.OPTIONS if pool_by_opt.get(o)]
-    nobj = 2 if cls in ("blocks", "overlap", "shared") else 1
+    nobj = 2 if cls in ("blocks", "overlap", "shared", "gc") else 1
     engines = [rng.choice(opts) for _ in range(nobj)]
     scripts = {}
     calls = []
@@ -214,6 +216,29 @@ def gen_history(rng, hid, cls, pool_by_opt, length):
             calls += [{"obj": obj, "call": "setup", "script": 0, "pool": p["idx"], "peek": True},
                       {"obj": obj, "call": "iterate_n", "n": rng.choice([1000, 1024, 2048]), "peek": True}, {"obj": obj, "call": "get_output"},
                       {"obj": obj, "call": "finalize"}]
+    elif cls == "gc":
+        # while object 0 is mid-run, ANOTHER engine object on the same library that is not set up (never was / finalized long
+        # ago / a throw-away temporary) loses its last reference and is garbage-collected: object 0 must not notice
+        engines = [engines[0], rng.choice(opts)]
+        p = rng.choice(pool_by_opt[engines[0]])
+        scripts[p["idx"]] = 0
+        how = rng.choice(["temp", "never_setup", "finalized_old"])
+        if how == "finalized_old":
+            q = rng.choice(pool_by_opt[engines[1]])
+            scripts.setdefault(q["idx"], len(scripts))
+            calls += [{"obj": 1, "call": "setup", "script": scripts[q["idx"]], "pool": q["idx"], "peek": True}, {"obj": 1, "call": "iterate", "peek": True},
+                      {"obj": 1, "call": "get_output"}, {"obj": 1, "call": "finalize"}]
+        calls.append({"obj": 0, "call": "setup", "script": 0, "pool": p["idx"], "peek": True})
+        for _ in range(rng.randint(0, 3)):
+            calls.append({"obj": 0, "call": "iterate", "peek": True})
+        calls.append({"obj": 0, "call": "temp"} if how == "temp" else {"obj": 1, "call": "drop"})
+        if rng.random() < 0.5:
+            calls.append({"obj": 0, "call": "is_complete"})
+        calls.append(rng.choice([{"obj": 0, "call": "iterate", "peek": True}, {"obj": 0, "call": "iterate_n", "n": 2, "peek": True}]))
+        if rng.random() < 0.4:
+            calls.append({"obj": 0, "call": "temp"})
+        calls += [{"obj": 0, "call": "iterate_n", "n": 1000, "peek": True}, {"obj": 0, "call": "is_complete"}, {"obj": 0, "call": "get_output"},
+                  {"obj": 0, "call": "finalize"}]
     elif cls == "uaf":
         p = rng.choice(pool_by_opt[engines[0]])
         scripts[p["idx"]] = 0
@@ -248,6 +273,11 @@ def reference_machine(job, pool_by_idx, results):
             bad.append((i, "raised", "%s() raised %s" % (k, r["raised"]), r["raised"], "no exception"))
             return bad
         ret = r.get("ret")
+        if k == "temp":
+            continue            # another object came and went: nothing changes for anyone
+        if k == "drop":
+            st[o] = None
+            continue
         s = st[o]
         if k == "setup":
             ref = pool_by_idx[c["pool"]]["ref"]
@@ -569,6 +599,10 @@ def explore(ctx, n_pool, n_hist, kind="plain", degenerate=False, long_histories=
             cls = "itn0"
         elif i in (3, 4):
             cls = "shared"
+        elif i in (5, 6, 7):
+            cls = "gc"
+        elif r < 0.1 and r >= 0.05:
+            cls = "gc"
         elif r < 0.05:
             cls = "shared"
         elif r < 0.72:
@@ -612,7 +646,9 @@ def explore(ctx, n_pool, n_hist, kind="plain", degenerate=False, long_histories=
             at = r["at"] if r["at"] is not None else len(results)
             call = job["calls"][at]["call"] if at < len(job["calls"]) else "end-of-job"
             what = "hang" if r["status"] == "timeout" else "crash"
-            if cls == "uaf" and at >= 2:
+            if cls == "gc":
+                key = KEY_GC
+            elif cls == "uaf" and at >= 2:
                 key = KEY_UAF
             elif cls == "overlap":
                 key = KEY_SHARED
@@ -628,8 +664,11 @@ def explore(ctx, n_pool, n_hist, kind="plain", degenerate=False, long_histories=
         for (i, key, what, impl, exp) in bad:
             if cls == "overlap":
                 key = KEY_SHARED
+            if cls == "gc" and key not in ("raised",) and not key.startswith(("buffer-length", "native-init-rc", "setup-modifies")):
+                key = KEY_GC
+                what = what + " — after another engine object (not set up) on the same library was garbage-collected"
             ctx.violation(key, "call %d (%s, object %d): %s" % (i, job["calls"][i]["call"], job["calls"][i]["obj"], what), case, impl=impl, expected=exp)
-        if results:
+        if results and cls != "gc":
             annotate_run_counts(job, pool_by_idx, results)
             ops.append(model_op(job, pool_by_idx, results))
             metas.append((job, results, case, r["status"]))
